@@ -10,9 +10,10 @@ from ..common import f2hex, hex2f, run_driver, parse_kv, vec_f
 from ..impl import make, Recorder, step_table, quiet, exc_enum, MODES
 from . import e2e
 
-RULE = ("cases = (estimator class, hyper-parameters, data set, match-tracking mode, epsilon, veto table, batching); "
+RULE = ("cases = (estimator class, hyper-parameters, data set, match-tracking mode, epsilon, veto table, batching"
+        " [, host SimpleARTMAP + class labels, hyper-parameter re-assignments between partial_fit batches]); "
         "a case is non-trivial when at least one step visited >= 2 categories or met a veto; distinct by hash of "
-        "(class, params, data, mode, eps, veto table)")
+        "(class, params, data, mode, eps, veto table [, host, labels, batching, re-assignment schedule])")
 
 
 GEN_THEOREMS = ["base_match_tracking", "dual_match_tracking", "topo_match_tracking", "cviart_match_tracking",
@@ -45,6 +46,64 @@ def build_est(r, cls, d, fusion_ok=True):
     return specs.elem_spec(r, cls, specs.width(cls, d) if cls != "FuzzyART" else d), None, None
 
 
+def _joint_ok(cls, p):
+    """the standing assumptions the spec generators keep between hyper-parameters of one estimator"""
+    if cls in ("FuzzyART", "HypersphereART", "EllipsoidART") and p.get("rho") == 0.0 and p.get("alpha") == 0.0:
+        return False
+    if cls == "ART1" and p.get("rho") == 0.0 and p.get("L") == 1.0:
+        return False
+    return True
+
+
+def _is_scalar(v):
+    return isinstance(v, (int, float)) and not isinstance(v, bool)
+
+
+def reassignment(r, cls, d, cur):
+    """hyper-parameter values for a re-configuration between two batches: drawn from the same generator as the
+    constructor arguments (so every resulting configuration is one validation accepts); only the vigilance, every
+    scalar hyper-parameter, or the vigilance and some others"""
+    s2 = None
+    for _ in range(4):
+        s2 = build_est(r, cls, d)[0]
+        if s2["rho"] != cur["rho"]:
+            break
+    scal = [k for k, v in s2.items() if k != "cls" and _is_scalar(v) and k in cur]
+    style = r.choice(["rho", "rho", "all", "some"])
+    if style == "rho":
+        keys = ["rho"]
+    elif style == "all":
+        keys = scal
+    else:
+        keys = ["rho"] + [k for k in scal if k != "rho" and r.random() < 0.5]
+    new = dict(cur)
+    new.update({k: s2[k] for k in keys})
+    if not _joint_ok(cls, new):
+        keys = scal
+    return {k: s2[k] for k in keys}
+
+
+def _params_snapshot(p):
+    return {k: (np.array(v, dtype=float).copy() if isinstance(v, (list, tuple, np.ndarray)) else v) for k, v in p.items()}
+
+
+def _params_differ(have, want):
+    """keys whose value in the estimator's params differs from the configured one"""
+    bad = []
+    for k, v in want.items():
+        if k not in have:
+            bad.append(k)
+        elif isinstance(v, (list, tuple, np.ndarray)) or isinstance(have[k], np.ndarray):
+            try:
+                if not np.array_equal(np.asarray(have[k], dtype=float), np.asarray(v, dtype=float)):
+                    bad.append(k)
+            except Exception:
+                bad.append(k)
+        elif not (have[k] == v):
+            bad.append(k)
+    return bad
+
+
 def run(ctx):
     cov = ctx.cov
     N = ctx.scale(900, 9000)
@@ -52,12 +111,22 @@ def run(ctx):
     classes = specs.ELEM + ["FusionART"]
     lines, expect, refill = [], [], []
     Nflag = ctx.scale(120, 2500)
-    for i in range(N + Nflag):
+    # re-configured histories: the estimator is trained in >= 2 partial_fit batches and hyper-parameters are re-assigned
+    # between batches through the public routes (`model.rho = v`, which BaseART.__setattr__ routes into params, or
+    # set_params); every oracle / model line below then uses the configuration IN FORCE at that step.  About a third of
+    # them run as the A-side of a SimpleARTMAP (the host's label map supplies the vetoes, `clf.module_a.rho = v`).
+    Nre = ctx.scale(280, 2000)
+    for i in range(N + Nflag + Nre):
         r = gen.rng_for(ctx.seed, "C01", i)
+        reassign = i >= N + Nflag
         cls = classes[i % len(classes)] if i < N else "FusionART"
         d = r.randint(1, 4)
         n = r.randint(1, nmax)
         mode = MODES[(i // len(classes)) % 5]
+        if reassign:
+            cls = specs.ELEM[i % len(specs.ELEM)]
+            mode = MODES[(i // len(specs.ELEM)) % 5]
+            n = max(n, 3)
         eps = r.choice([0.0, 2.0 ** -20, 2.0 ** -10, 1e-10, 0.125])
         has_reset = r.random() < 0.7
         floats = r.random() < 0.3
@@ -91,20 +160,66 @@ def run(ctx):
                 mode, eps, has_reset = "MT+", r.choice([0.125, 2.0 ** -10]), True
                 vt = [[r.random() < 0.5 for _ in range(n + 1)] for _ in range(n)]
                 cov.hit("fusion-flag-channel:rho=0")
+        # configuration in force: conf_at[si] = hyper-parameters the step si has to be judged with
+        conf = {k: v for k, v in spec.items() if k != "cls"} if cls != "FusionART" else None
+        host, y, sched, parts_re = False, None, {}, None
+        if reassign:
+            host = r.random() < 0.35
+            cuts = sorted(r.sample(range(1, n), r.randint(1, min(n - 1, 4))))
+            parts_re = [b - a for a, b in zip([0] + cuts, cuts + [n])]
+            cur = dict(conf)
+            for bi in range(1, len(parts_re)):
+                if bi == 1 or r.random() < 0.7:
+                    ch = reassignment(r, cls, d, cur)
+                    sched[bi] = (r.choice(["attr", "attr", "attr", "set_params"]), ch)
+                    cur.update(ch)
+            if host:
+                y = gen.labels(r, n, k=r.choice([2, 3]))
+                has_reset = True
+        conf_at = []
+        if conf is not None:
+            cur = dict(conf)
+            for bi, sz in enumerate(parts_re if reassign else [n]):
+                if bi in sched:
+                    cur = dict(cur)
+                    cur.update(sched[bi][1])
+                conf_at += [cur] * sz
+        sched_rep = {str(bi): {"route": rt, "values": ch} for bi, (rt, ch) in sched.items()}
+        tagc = f"SimpleARTMAP({cls})" if host else cls
         key = (cls, spec, X.tolist(), mode, eps, vt if has_reset else None)
+        if reassign:
+            key = key + (host, None if y is None else y.tolist(), tuple(parts_re), repr(sorted(sched_rep.items())))
         try:
             with quiet():
                 m = make(spec)
+                m_host = None
+                if host:
+                    from artlib import SimpleARTMAP
+                    m_host = SimpleARTMAP(m)
         except Exception as e:  # construction of a valid spec must not fail
             ctx.issue("violation", f"{cls}.__init__:{exc_enum(e)}", f"constructor raised {e!r}", {"spec": spec})
             continue
         rec = Recorder(m, fusion=(cls == "FusionART"))
         frames = []
+        pframes, maps = [], []
         orig_step = m.__dict__["step_fit"]
 
         fullM = []
 
-        def framed(x, *a, _o=orig_step, _m=m, _cls=cls, **kw):
+        def framed(x, *a, _o=orig_step, _m=m, _cls=cls, _h=m_host, **kw):
+            if _cls != "FusionART":
+                pframes.append([_params_snapshot(_m.params), None])
+            if _h is not None:
+                maps.append(dict(_h.map))
+            try:
+                return framed_(x, *a, _o=_o, _m=_m, _cls=_cls, **kw)
+            finally:
+                if _cls != "FusionART":
+                    pframes[-1][1] = _params_snapshot(_m.params)
+
+        def framed_(x, *a, _o=orig_step, _m=m, _cls=cls, _re=reassign, _ca=conf_at, **kw):
+            def _pf():  # hyper-parameters in force for this step
+                return _m.params if not _re else {**_m.params, **_ca[len(frames)]}
             before = [np.array(w, dtype=float).copy() for w in _m.W]
             # match values of EVERY category for this sample, from the class's own public kernels (unwrapped, so the
             # recorder does not see the calls) on the state before the step: used only when the estimator's search
@@ -115,8 +230,8 @@ def run(ctx):
                     with np.errstate(all="ignore"):
                         fm = []
                         for wb in _m.W:
-                            _, ch_ = type(_m).category_choice(_m, x, wb, params=_m.params)
-                            fm.append([float(type(_m).match_criterion(_m, x, wb, params=_m.params, cache=ch_)[0])])
+                            _, ch_ = type(_m).category_choice(_m, x, wb, params=_pf())
+                            fm.append([float(type(_m).match_criterion(_m, x, wb, params=_pf(), cache=ch_)[0])])
                 except Exception:
                     fm = None
             fullM.append(fm)
@@ -128,10 +243,39 @@ def run(ctx):
         reset = None
         if has_reset:
             reset = rec.reset_logger(lambda i_, w_, c_, params, cache: not vt[len(rec.steps) - 1][c_])
-        parts = gen.compositions(r, n)
+        if host:
+            # the host's own veto (label map) is the reset function; its calls land in the current step
+            def host_reset(i_, w_, cluster_a, params=None, extra=None, cache=None, _f=type(m_host).match_reset_func,
+                           _h=m_host, **kw):
+                ans = _f(_h, i_, w_, cluster_a, params=params, extra=extra, cache=cache, **kw)
+                if rec.cur is not None:
+                    rho_ = params.get("rho") if isinstance(params, dict) else None
+                    rec.cur.resets.append((int(cluster_a), bool(ans), None if rho_ is None else float(rho_)))
+                return ans
+            object.__setattr__(m_host, "match_reset_func", host_reset)
+        parts = gen.compositions(r, n) if not reassign else parts_re
+        rep_re = {"parts": parts, "reassigned-before-batch": sched_rep, "host": "SimpleARTMAP" if host else None,
+                  "y": y} if reassign else {}
         try:
             with quiet():
-                if len(parts) == 1 and r.random() < 0.5:
+                if reassign:
+                    target = m_host.module_a if host else m
+                    for bi, B in enumerate(gen.split(X, parts)):
+                        if bi in sched:
+                            route, ch = sched[bi]
+                            if route == "attr":
+                                for k_, v_ in ch.items():
+                                    setattr(target, k_, v_)
+                            else:
+                                target.set_params(**ch)
+                            cov.hit(f"reassign:{route}:" + ("rho-only" if list(ch) == ["rho"] else "several"))
+                            cov.hit("reassign:" + ("host-A-side" if host else "elementary"))
+                        if host:
+                            a0 = sum(parts[:bi])
+                            m_host.partial_fit(B, y[a0:a0 + len(B)], match_tracking=mode, epsilon=eps)
+                        else:
+                            m.partial_fit(B, match_reset_func=reset, match_tracking=mode, epsilon=eps)
+                elif len(parts) == 1 and r.random() < 0.5:
                     m.fit(X, match_reset_func=reset, match_tracking=mode, epsilon=eps)
                 else:
                     for B in gen.split(X, parts):
@@ -139,10 +283,41 @@ def run(ctx):
         except Exception as e:
             sig = f"{cls}.fit:{exc_enum(e)}"
             ctx.issue("violation", sig, f"training raised {e!r} on validated data (mode {mode}, reset={has_reset})",
-                      {"spec": spec, "X": X, "mode": mode, "eps": eps, "veto": vt if has_reset else None, "parts": parts})
+                      {"spec": spec, "X": X, "mode": mode, "eps": eps, "veto": vt if has_reset and not host else None, "parts": parts,
+                       **rep_re})
             cov.case(key, False)
             continue
         nontrivial = False
+        if host:
+            # the veto pattern of this history: category c is vetoed for sample si when the host's map (before the
+            # step) ties it to another class
+            vt = [[(c_ in mp and mp[c_] != y[si_]) for c_ in range(n + 1)] for si_, mp in enumerate(maps)]
+            rep_re = dict(rep_re, veto=vt)
+        # ---- oracle: the hyper-parameters of the estimator are, before and after every sample's search, the ones
+        #      configured (constructor, then the latest assignment): whatever a search does to the vigilance lives
+        #      "only for the rest of that sample's search", and a re-assigned value stays in force
+        if cls != "FusionART" and len(pframes) == len(conf_at):
+            for si, (pb, pa) in enumerate(pframes):
+                bad_b = _params_differ(pb, conf_at[si])
+                bad_a = _params_differ(pa, conf_at[si]) if pa is not None else []
+                if bad_b or bad_a:
+                    when = "before" if bad_b else "after"
+                    have = pb if bad_b else pa
+                    bad = bad_b or bad_a
+                    ctx.issue("violation", f"{tagc}:hyper-parameters-{when}-search-differ-from-those-in-force",
+                              f"step {si}: {when} the sample's search params holds "
+                              f"{ {k: have.get(k) for k in bad} }, in force (configured"
+                              f"{', re-assigned before batch(es) ' + ','.join(sched_rep) if sched else ''}) is "
+                              f"{ {k: conf_at[si][k] for k in bad} } (mode {mode}, eps {eps}, reset function {has_reset})",
+                              {"spec": spec, "X": X, "step": si, "mode": mode, "eps": eps,
+                               "veto": vt if has_reset else None, **rep_re})
+                    break
+            if reassign:
+                cov.hit("oracle:params-in-force-before-and-after-every-search")
+
+        def inforce(si_):
+            """hyper-parameters the step has to be judged with (non-scalar ones are never re-assigned)"""
+            return m.params if not reassign else {**m.params, **conf_at[si_]}
         # ---- oracle part: frame + winner qualifies (statement on the implementation)
         for si, ((before, after, c, x), st) in enumerate(zip(frames, rec.steps)):
             nb = len(before)
@@ -162,7 +337,7 @@ def run(ctx):
                 else:
                     with quiet():
                         try:
-                            wn = np.array(m.new_weight(x, m.params), dtype=float)
+                            wn = np.array(m.new_weight(x, inforce(si)), dtype=float)
                             if not np.array_equal(wn, after[-1], equal_nan=True):
                                 ctx.issue("violation", f"{cls}:new-not-from-sample",
                                           f"step {si}: appended weight differs from new_weight(x)",
@@ -180,33 +355,38 @@ def run(ctx):
                     with quiet():
                         Ts, Ms = [], []
                         for wb in before:
-                            t_, ch_ = m.category_choice(x, wb, params=m.params)
-                            mm_, _ = m.match_criterion(x, wb, params=m.params, cache=ch_)
+                            t_, ch_ = m.category_choice(x, wb, params=inforce(si))
+                            mm_, _ = m.match_criterion(x, wb, params=inforce(si), cache=ch_)
                             Ts.append(float(t_))
                             Ms.append(float(mm_))
                 except Exception:
                     break
-                rho_ = m.params["rho"]
+                rho_ = inforce(si)["rho"]
                 ok_ = [k for k in range(len(before)) if not np.isnan(Ts[k]) and (Ms[k] > rho_ if strict else Ms[k] >= rho_)]
                 want = min(ok_, key=lambda k: (-Ts[k], k)) if ok_ else len(before)
                 if want != c:
                     ctx.issue("violation", f"{cls}:not-best-vigilance-passing-category",
                               f"step {si}: assigned {c}, but the oldest category of maximal activation among those passing "
-                              f"vigilance is {want} (activations {Ts}, match values {Ms}, rho {rho_}, mode {mode})",
-                              {"spec": spec, "X": X, "step": si, "mode": mode, "eps": eps})
+                              f"vigilance is {want} (activations {Ts}, match values {Ms}, rho {rho_}"
+                              f"{' in force after re-assignment' if reassign else ''}, mode {mode})",
+                              {"spec": spec, "X": X, "step": si, "mode": mode, "eps": eps, **rep_re})
                     break
+                if reassign:
+                    cov.hit("oracle:winner-recomputed-with-params-in-force")
                 if len(ok_) >= 2 and sorted(Ts[k] for k in ok_)[-1] == sorted(Ts[k] for k in ok_)[-2]:
                     cov.hit("oracle:tie-among-qualifying")
         # ---- oracle: a tracked vigilance lives "only for the rest of that sample's search": the first
         #      category visited for every sample is judged against the configured value
         if cls != "FusionART":
-            conf = spec["rho"]
             for si, st in enumerate(rec.steps):
-                if st.Mseq and st.Mseq[0][2] is not None and st.Mseq[0][2] != conf:
-                    ctx.issue("violation", f"{cls}:vigilance-leaks-across-samples",
-                              f"step {si}: the first candidate was tested against rho={st.Mseq[0][2]}, configured {conf} "
+                conf_rho = conf_at[si]["rho"] if si < len(conf_at) else spec["rho"]
+                if st.Mseq and st.Mseq[0][2] is not None and st.Mseq[0][2] != conf_rho:
+                    ctx.issue("violation", f"{tagc}:vigilance-leaks-across-samples",
+                              f"step {si}: the first candidate was tested against rho={st.Mseq[0][2]}, configured {conf_rho}"
+                              f"{' (in force since the latest re-assignment)' if reassign else ''} "
                               f"(mode {mode}, eps {eps}, reset function {has_reset})",
-                              {"spec": spec, "X": X, "step": si, "mode": mode, "eps": eps, "veto": vt if has_reset else None})
+                              {"spec": spec, "X": X, "step": si, "mode": mode, "eps": eps, "veto": vt if has_reset else None,
+                               **rep_re})
                     break
         # ---- model tie: one `search` line per step that had categories
         for si, st in enumerate(rec.steps):
@@ -217,12 +397,15 @@ def run(ctx):
             if len(st.Mseq) >= 2 or any(not a for (_, a, _) in st.resets):
                 nontrivial = True
             veto = [1 if (has_reset and vt[si][c]) else 0 for c in range(st.ncat)]
+            if reassign:
+                rho = [conf_at[si]["rho"]]
+                cov.hit("search-line:vigilance-in-force-at-that-step")
             ms = ",".join("?" if mv is None else ":".join(f2hex(v) for v in mv) for mv in M)
             line = "search %s %s %s %s %s %s %s" % (
                 mode, ",".join(map(str, inv)), ",".join(f2hex(v) for v in rho), f2hex(eps),
                 vec_f(T), ms, ",".join(map(str, veto)))
             lines.append(line)
-            expect.append((i, si, st, cls, mode, has_reset, spec, X, eps, vt))
+            expect.append((i, si, st, tagc, mode, has_reset, spec, X, eps, vt, rep_re))
             filled = None
             if si < len(fullM) and fullM[si] is not None and len(fullM[si]) == st.ncat and any(mv is None for mv in M):
                 ms2 = ",".join(":".join(f2hex(v) for v in (mv if mv is not None else fullM[si][c])) for c, mv in enumerate(M))
@@ -240,9 +423,9 @@ def run(ctx):
     # still had to judge: the missing match values come from the estimator's own public kernels
     again = [k for k, out in enumerate(outs) if out == "unrecorded-match" and refill[k] is not None]
     outs2 = dict(zip(again, run_driver([refill[k] for k in again]))) if again else {}
-    for k_, (line, out, (i, si, st, cls, mode, has_reset, spec, X, eps, vt)) in enumerate(zip(lines, outs, expect)):
+    for k_, (line, out, (i, si, st, cls, mode, has_reset, spec, X, eps, vt, rep_re)) in enumerate(zip(lines, outs, expect)):
         rep = {"case": i, "step": si, "class": cls, "spec": spec, "mode": mode, "eps": eps, "X": X,
-               "veto": vt if has_reset else None, "line": line, "model": out}
+               "veto": vt if has_reset else None, "line": line, "model": out, **rep_re}
         if k_ in outs2 and outs2[k_].startswith("w="):
             w2 = parse_kv(outs2[k_])["w"]
             exp_w = "-" if st.ret == st.ncat else str(st.ret)
